@@ -192,6 +192,18 @@ Proof.
   repeat split; try assumption; destruct tr, tr'; try discriminate; congruence.
 Qed.
 
+Lemma slice_check_cov_sound t rv cov sel st srv scov :
+  slice_check_cov t rv cov sel st srv scov = true ->
+  st = gather XNaN sel t /\ srv = gather XNaN sel rv /\ scov = gather2 sel cov /\
+  forall i j, (i < length sel)%nat -> (j < length sel)%nat ->
+    nth j (nth i scov []) XNaN = nth (nth j sel O) (nth (nth i sel O) cov []) XNaN.
+Proof.
+  unfold slice_check_cov. rewrite !andb_true_iff. intros [[H1 H2] H3].
+  apply (list_eqb_eq x_ideqb x_ideqb_eq) in H1, H2.
+  apply (list_eqb_eq _ (list_eqb_eq x_ideqb x_ideqb_eq)) in H3.
+  repeat split; try congruence. intros i j Hi Hj. subst scov. apply gather2_entry; assumption.
+Qed.
+
 Lemma slice_check_sound orig sel pi out :
   slice_check orig sel pi out = true ->
   Permutation out (gather obs_d sel orig) /\ sorted_t out = true.
